@@ -274,6 +274,10 @@ def run(rep):
     rep.clause("R-C11-count", "frame counters, positions and returned counts are not written inside channel loops and do not mention the mask")
     rep.not_decided += ["numerical equality with n single-channel runs (follows from the clauses above plus C18's 'no hidden state'; stated as an argument)"]
     rep.trusted += ["syn parser", "realfft overwrites its whole output"]
+    # everything else a working resampler needs (see rules/shares.py: a change that makes the resampler panic, drop frames, corrupt state on a
+    # rejected call or forward a trait-object call wrongly breaks this property as well)
+    import shares as _shares
+    _shares.complete(rep)
     return rep.finish(level="other", explanation=(
         "Control-dependence and index-discipline rules on the syntax tree: each access to caller data is dominated by the same channel's mask bit, per-channel "
         "containers are only indexed by the loop's channel variable, shared scratch is rewritten before use, and counters live outside channel loops."))
